@@ -49,32 +49,35 @@ def factoryLine (t : Tok) (cnt : Nat) : String := Id.run do
   let l1 := match last with | some x => fmt x | none => "-"
   s!"n={n} first={f1} last={l1} sum={sum} distinct={increasing} same={same} panic={panicked}"
 
-/-- A composite source of `n` leaves in a loop: every (re)registration hands the leaves, in order, the tokens of a
-    fresh factory for the source's registration token — so leaf `j` sits in the poller under sub-id `j`; a disabled
-    source has no leaf registered.  (`update`, a `Reregister` post action and `enable` all re-run the factory.) -/
-def compositeLine (n : Nat) (ops : List String) : String :=
-  let reg : Option String :=
+/-- A composite source in a loop (`g`/`r`: fd-backed leaves, `t`: a timer leaf): every (re)registration hands the leaves,
+    in order, the tokens of a fresh factory for the source's registration token — so leaf `j` sits in the poller (or
+    in the timer wheel) under sub-id `j`; a disabled source has no leaf registered.  (`update`, a `Reregister` post
+    action and `enable` all re-run the factory.)  When the timers run out, only timer leaves of an enabled source are
+    called back. -/
+def compositeLine (leaves : List Char) (ops : List String) : String :=
+  let n := leaves.length
+  let show1 (on : Bool) : String :=
     match Factory.take? bS n (Factory.new ⟨0, 0, 0⟩) with
-    | some (toks, _) => some (",".intercalate (toks.map fun t => toString t.sub))
-    | none => none
-  let unreg := ",".intercalate (List.replicate n "-")
-  match reg with
-  | none => "panic"
-  | some r =>
-    let (stages, _) := ops.foldl (fun (acc : List String × Bool) op =>
-      let (out, on) := acc
-      match op with
-      | "disable" => (out ++ [unreg], false)
-      | "enable" => (out ++ [r], true)
-      | "update" | "rereg" => (out ++ [if on then r else unreg], on)
-      | _ => (out ++ [if on then r else unreg], on)) ([r], true)
-    s!"{";".intercalate stages} own=true ok=true"
+    | some (toks, _) =>
+      ",".intercalate ((leaves.zip toks).map fun (c, t) => if c == 't' then "t" else if on then toString t.sub else "-")
+    | none => "panic"
+  let r := show1 true
+  let unreg := show1 false
+  let (stages, on) := ops.foldl (fun (acc : List String × Bool) op =>
+    let (out, on) := acc
+    match op with
+    | "disable" => (out ++ [unreg], false)
+    | "enable" => (out ++ [r], true)
+    | _ => (out ++ [if on then r else unreg], on)) ([r], true)
+  let timers := (List.range n).filter fun i => leaves[i]? == some 't'
+  let fired := if on && !timers.isEmpty then ",".intercalate (timers.map toString) else "-"
+  s!"{";".intercalate stages} own=true ok=true fired={fired}"
 
 def step (line : String) : Option String :=
   match words line with
   | [] => none
   | "composite" :: leaves :: rest =>
-    some (compositeLine leaves.length ((rest.headD "").splitOn "," |>.filter (· != "")))
+    some (compositeLine leaves.toList ((rest.headD "").splitOn "," |>.filter (· != "")))
   | op :: rest =>
     if op.startsWith "#" then none else
     some <| match op, nums rest with
